@@ -32,3 +32,13 @@ Definition get_handler (subapps : list subapp) (default : subapp) (host : option
     end
   | None => from_default
   end.
+
+(* app.rs call_websocket_handler: the same selection over each sub-application's websocket_routes; an App sub-application
+   carries both tables. No match: the stream is dropped (connection closed without an upgrade). *)
+Record subapp2 := { s2_host : list N; s2_routes : list (list N); s2_ws_routes : list (list N) }.
+Definition http_view (s : subapp2) : subapp := {| sa_host := s2_host s; sa_routes := s2_routes s |}.
+Definition ws_view (s : subapp2) : subapp := {| sa_host := s2_host s; sa_routes := s2_ws_routes s |}.
+Definition dispatch_request (subapps : list subapp2) (default : subapp2) (upgrade : bool)
+    (host : option (list N)) (uri : list N) : option choice :=
+  if upgrade then get_handler (map ws_view subapps) (ws_view default) host uri
+  else get_handler (map http_view subapps) (http_view default) host uri.
